@@ -151,10 +151,10 @@ theorem conjuncts_vars {b t : Term} {x : Nat} (ht : t ∈ SLD.conjuncts b) (hx :
     cases t' <;> simp_all [SLD.wrapVar, SLD.call1, Term.hasVar, Args.hasVar]
 
 /-- what the simulation needs to know about a compiled clause, uniformly for rules and facts -/
-theorem CRel.info {cl : Clause} {h b : Term} (hr : CRel cl h b) :
+theorem CRel.info {fl : Bool} {cl : Clause} {h b : Term} (hr : CRel fl cl h b) :
     ∃ hargs pre bops gs, HeadLayout h cl hargs ∧
       cl.code = headCode hargs {} ++ (pre ++ (bops ++ [Op.exit])) ∧ (pre = [] ∨ pre = [Op.enter]) ∧
-      BodySem cl.vars bops gs ∧ (∀ g ∈ gs, g = .atom "!" ∨ hornGoal (goalTerm g) = true) ∧
+      BodySem cl.vars bops gs ∧ (∀ g ∈ gs, g = .atom "!" ∨ stepGoal fl (goalTerm g) = true) ∧
       (SLD.conjuncts b = gs.map goalTerm ∨ (gs = [] ∧ b = .atom "true")) := by
   cases hr with
   | rule hl hcode hsem hgs hg =>
@@ -216,7 +216,7 @@ theorem mguLike_of_solve {a2 b2 : Term} {n : Nat} {θ2 : List (Nat × Term)}
 
 /-- **one clause activation**, the clause's variables being sent to the reference's variables by an
     arbitrary renaming-apart κ (for a program clause: `shift nv`) -/
-theorem thunk_head' {tmpl : Term} {max : Nat} {cl : Clause} {h b : Term} (hcr : CRel cl h b)
+theorem thunk_head' {fl : Bool} {tmpl : Term} {max : Nat} {cl : Clause} {h b : Term} (hcr : CRel fl cl h b)
     {N : Nat} {env : Env} {σ : Subst} {π : Nat → Nat} {D : Nat → Prop} {nv : Nat}
     (hsim : SimW tmpl N env σ π D nv)
     (F : Nat) (g : Term) (K : Cont) (id : Nat) (m : MS) (res : Pr × MS)
@@ -237,7 +237,7 @@ theorem thunk_head' {tmpl : Term} {max : Nat} {cl : Clause} {h b : Term} (hcr : 
           ∃ σ' π' D' G1, SimW tmpl N' env' σ' π' D' nv' ∧
             (∀ v, D v → D' v) ∧
             (∀ t, InD D t → img σ' π' t = (img σ π t).subst τ2) ∧
-            (∀ G, ContGoals tmpl max K G → ContGoals tmpl max K1 (G1 ++ G)) ∧
+            (∀ G, ContGoals fl tmpl max K G → ContGoals fl tmpl max K1 (G1 ++ G)) ∧
             Forall2 (fun g1 bg => InD D' g1.1 ∧ g1.2 = id ∧ img σ' π' g1.1 = (bg.rename κ).subst τ2) G1 Bs ∧
             (∀ v, D' v → D v ∨ ∃ x, (h.hasVar x = true ∨ b.hasVar x = true) ∧
               img σ' π' (.var v) = ((Term.var x).rename κ).subst τ2)) := by
@@ -345,7 +345,7 @@ theorem thunk_head' {tmpl : Term} {max : Nat} {cl : Clause} {h b : Term} (hcr : 
 theorem maxVar_rule (h b : Term) : SLD.maxVar (SLD.rule h b) = Nat.max (SLD.maxVar h) (SLD.maxVar b) := by
   simp [SLD.rule, SLD.mk2, SLD.maxVar, SLD.maxVarArgs]
 
-theorem thunk_head {tmpl : Term} {max : Nat} {cl : Clause} {h b : Term} (hcr : CRel cl h b)
+theorem thunk_head {fl : Bool} {tmpl : Term} {max : Nat} {cl : Clause} {h b : Term} (hcr : CRel fl cl h b)
     {N : Nat} {env : Env} {σ : Subst} {π : Nat → Nat} {D : Nat → Prop} {nv : Nat}
     (hsim : SimW tmpl N env σ π D nv)
     (F : Nat) (g : Term) (K : Cont) (id : Nat) (m : MS) (res : Pr × MS)
@@ -361,7 +361,7 @@ theorem thunk_head {tmpl : Term} {max : Nat} {cl : Clause} {h b : Term} (hcr : C
           ∃ σ' π' D' G1, SimW tmpl N' env' σ' π' D' (nv + SLD.maxVar (SLD.rule h b)) ∧
             (∀ v, D v → D' v) ∧
             (∀ t, InD D t → img σ' π' t = (img σ π t).subst (substOf θ2)) ∧
-            (∀ G, ContGoals tmpl max K G → ContGoals tmpl max K1 (G1 ++ G)) ∧
+            (∀ G, ContGoals fl tmpl max K G → ContGoals fl tmpl max K1 (G1 ++ G)) ∧
             Forall2 (fun g1 bg => InD D' g1.1 ∧ g1.2 = id ∧
               img σ' π' g1.1 = (SLD.shift nv bg).subst (substOf θ2)) G1 Bs) := by
   have hlt : ∀ x, (h.hasVar x = true ∨ b.hasVar x = true) → x < SLD.maxVar (SLD.rule h b) := by
